@@ -35,6 +35,7 @@ type report struct {
 	LockSites  []string `json:"lock_types_replaced"`
 	IOSites    []string `json:"file_system_calls_wrapped"`
 	Points     int      `json:"preemption_points_inserted"`
+	ClockSites []string `json:"clock_reads_replaced"`
 	RewroteSrc []string `json:"files_rewritten"`
 }
 
@@ -299,6 +300,27 @@ func rewriteFile(p *packages.Package, f *ast.File, name, dir string, rep *report
 		return true
 	}, nil)
 
+	// 1e. time.Now -> verifrt.Now (clock seam)
+	astutil.Apply(f, func(c *astutil.Cursor) bool {
+		sel, ok := c.Node().(*ast.SelectorExpr)
+		if !ok || sel.Sel.Name != "Now" {
+			return true
+		}
+		id, ok := sel.X.(*ast.Ident)
+		if !ok {
+			return true
+		}
+		pn, ok := p.TypesInfo.Uses[id].(*types.PkgName)
+		if !ok || pn.Imported().Path() != "time" {
+			return true
+		}
+		pos := p.Fset.Position(sel.Pos())
+		rep.ClockSites = append(rep.ClockSites, fmt.Sprintf("%s:%d time.Now", rel, pos.Line))
+		c.Replace(&ast.SelectorExpr{X: ast.NewIdent("verifrt"), Sel: ast.NewIdent("Now")})
+		changed, usesRT = true, true
+		return true
+	}, nil)
+
 	// 1c. (*archive/zip.Writer).Create / CreateHeader / Close -> verifrt wrappers: entry boundaries are yield points
 	astutil.Apply(f, func(c *astutil.Cursor) bool {
 		call, ok := c.Node().(*ast.CallExpr)
@@ -495,6 +517,9 @@ func rewriteFile(p *packages.Package, f *ast.File, name, dir string, rep *report
 		}
 		if !astutil.UsesImport(f, "os") {
 			astutil.DeleteImport(p.Fset, f, "os")
+		}
+		if !astutil.UsesImport(f, "time") {
+			astutil.DeleteImport(p.Fset, f, "time")
 		}
 	}
 	return changed
